@@ -69,9 +69,19 @@ def grid_task(task):
         s = loopmodel.make_stub_solver(dt, False, None)
         s.integrate(y0, [t0, t1, t2], ())
         sa = loopmodel.make_stub_solver(dt, False, None)
-        sa.integrate(y0, [t0, t1], ())
+        ys_a, _ = sa.integrate(y0, [t0, t1], ())
         sb = loopmodel.make_stub_solver(dt, False, None)
         sb.integrate(y0, [t1, t2], ())
+        # the value handed back at the end of a chunk must be the grid state itself, bit for bit: with the output time equal to
+        # the accumulated step end (the same float), the interpolation must reduce to the state by rewrites that are EXACT in
+        # IEEE arithmetic (x-x=0, 0/w=0, w/w=1, 0*y=0, 1*y=y, 0+y=y).  w*(1/w) or (a*w)/w round and are not accepted.
+        if sa.log:
+            last = sa.log[-1]
+            got = ys_a[-1].sym.reshape(-1)[0]
+            want = last['y1'].sym.reshape(-1)[0]
+            red = dag.ieee_exact_at(got, [(t1.n, last['t1'].n)])
+            if red is not want:
+                E.fail('chunk-end-state-exact', 'structure', 'the state returned at the end of a chunk is not the grid state up to IEEE-exact rewrites: ' + dag.show(red, 5))
         parts = sa.log + sb.log
         if len(parts) != len(s.log):
             E.fail('chunk-steps', 'concrete', f'{len(parts)} steps in chunks, {len(s.log)} in one shot')
@@ -128,7 +138,7 @@ def run(ctx):
         ctx.paths += res['stats']['paths']; ctx.queries += res['stats']['queries']; ctx.solver_s += res['stats']['solver_s']
         if res['nfail']:
             f = res['failures'][0]
-            ctx.violation(f"grid|{f['what']}", f['detail'], replay=dict(grid=True, inputs=f['inputs'], k=list(t)))
+            ctx.violation(f"grid|{f['what']}", f['detail'], replay=dict(grid=True, what=f['what'], inputs=f['inputs'], k=list(t)))
         else:
             ctx.ok(name, f"{res['stats']['paths']} paths")
 
@@ -136,6 +146,8 @@ def run(ctx):
 def replay(data):
     import torchsde
     r = data['replay']
+    if r.get('grid') and r.get('what') == 'chunk-end-state-exact':
+        return replay_exact_end()
     if r.get('grid'):
         inp = {k: float(Fraction(v)) for k, v in r['inputs'].items()}
         k1, k2 = r['k']
@@ -177,3 +189,35 @@ def replay(data):
     bad = not all(torch.equal(x, y) for x, y in zip(full, outs))
     print('replay C13: max abs diff', max(float((x - y).abs().max()) for x, y in zip(full, outs)))
     return bad
+
+
+def replay_exact_end():
+    """the structural verdict says the value returned at a chunk end is not the grid state by exact float operations: look for
+    floats where the bits really differ (restart time = the accumulated grid time in the dtype of ts; float32 and float64)"""
+    import torchsde
+
+    class S(torch.nn.Module):
+        sde_type = 'ito'; noise_type = 'diagonal'
+        def f(self, t, y): return torch.sin(y) + 0.3
+        def g(self, t, y): return 0.2 + 0.1 * torch.cos(y)
+    found = None
+    for dtype in (torch.float32, torch.float64):
+        for i in list(range(1, 120)) + list(range(120, 400, 7)):
+            dt = i / 1000.0
+            for k in (1, 3, 4, 9, 12):
+                t = torch.tensor(0.0, dtype=dtype)
+                for _ in range(k):
+                    t = t + dt                      # the time the loop accumulates
+                t1 = float(t); t2 = float(t + dt + dt)
+                y0 = torch.full((2, 1), 0.3, dtype=dtype)
+                bm = torchsde.BrownianInterval(0.0, t2 + 1.0, size=(2, 1), dtype=dtype, entropy=5)
+                one = torchsde.sdeint(S(), y0, torch.tensor([0.0, t1, t2], dtype=dtype), bm=bm, method='euler', dt=dt)
+                a = torchsde.sdeint(S(), y0, torch.tensor([0.0, t1], dtype=dtype), bm=bm, method='euler', dt=dt)
+                b = torchsde.sdeint(S(), a[-1], torch.tensor([t1, t2], dtype=dtype), bm=bm, method='euler', dt=dt)
+                if not torch.equal(one[-1], b[-1]):
+                    found = (str(dtype), dt, k, float((one[-1] - b[-1]).abs().max()))
+                    break
+            if found: break
+        if found: break
+    print('replay C13 chunk-end exactness: first float witness (dtype, dt, restart step, |diff|):', found)
+    return found is not None
